@@ -25,7 +25,7 @@ import (
 // hold no common mutex.
 
 type parAccess struct {
-	path   string // steps separated by '.', index steps "[#]" (task-partitioned), "[*]", "{}" for map elements
+	path   string // steps separated by '.', index steps "[#]" (task-partitioned: an injective image of the task index), "[~]" (a many-to-one image of it), "[*]", "{}" for map elements
 	write  bool
 	kind   string // "store", "append", "mapupdate", "delete", "copy", "load", "lookup"
 	locks  []string
@@ -70,7 +70,7 @@ func parAnalysis(p *core.Prog) *parEngine {
 	e.findFamilies()
 	for _, f := range e.families {
 		for _, r := range f.regions {
-			e.collect(r, r.fn, r.env, r.task, nil, 0, map[*ssa.Function]bool{})
+			e.collect(r, r.fn, r.env, r.task, nil, nil, 0, map[*ssa.Function]bool{})
 		}
 	}
 	parCache[p] = e
@@ -285,11 +285,14 @@ func (e *parEngine) nameRegion(r *parRegion, com *ssa.CallCommon) {
 // access collection
 
 type parScope struct {
-	e    *parEngine
-	fn   *ssa.Function
-	env  map[ssa.Value]string
-	task map[ssa.Value]bool
-	dep  map[ssa.Value]int // memo for task dependence: 1 yes, 2 no, 3 in progress
+	e       *parEngine
+	fn      *ssa.Function
+	env     map[ssa.Value]string
+	task    map[ssa.Value]bool
+	dep     map[ssa.Value]int // memo for task dependence: 1 yes, 2 no, 3 in progress
+	inj     map[ssa.Value]injForm
+	many    map[ssa.Value]bool // integer parameters / captured variables that received a many-to-one image of the task index
+	injBusy map[ssa.Value]bool
 }
 
 func (s *parScope) depends(v ssa.Value) bool {
@@ -363,7 +366,12 @@ func (s *parScope) depends(v ssa.Value) bool {
 
 func (s *parScope) idxStep(i ssa.Value) string {
 	if s.depends(i) {
-		return "[#]"
+		// dependence on the task index separates two tasks only if the index
+		// expression cannot map two task indices to one slot (par_inj.go)
+		if s.injective(i) {
+			return "[#]"
+		}
+		return "[~]"
 	}
 	if k, ok := core.ConstInt(i); ok {
 		return fmt.Sprintf("[%d]", k)
@@ -591,13 +599,13 @@ func isSyncSafe(name string) bool {
 
 // collect gathers the shared accesses of fn (a region body or a callee that
 // received shared values) into r.acc.
-func (e *parEngine) collect(r *parRegion, fn *ssa.Function, env map[ssa.Value]string, task map[ssa.Value]bool, held []string, depth int, stack map[*ssa.Function]bool) {
+func (e *parEngine) collect(r *parRegion, fn *ssa.Function, env map[ssa.Value]string, task map[ssa.Value]bool, many map[ssa.Value]bool, held []string, depth int, stack map[*ssa.Function]bool) {
 	if fn == nil || fn.Blocks == nil || stack[fn] || depth > 3 {
 		return
 	}
 	stack[fn] = true
 	defer delete(stack, fn)
-	s := &parScope{e: e, fn: fn, env: env, task: task, dep: map[ssa.Value]int{}}
+	s := &parScope{e: e, fn: fn, env: env, task: task, many: many, dep: map[ssa.Value]int{}}
 	events := s.lockEvents()
 	locksAt := func(in ssa.Instruction) []string {
 		l := append([]string(nil), held...)
@@ -691,6 +699,7 @@ func (e *parEngine) collect(r *parRegion, fn *ssa.Function, env map[ssa.Value]st
 				// map shared arguments
 				cenv := map[ssa.Value]string{}
 				ctask := map[ssa.Value]bool{}
+				cmany := map[ssa.Value]bool{}
 				sharedArg := false
 				for i, a := range com.Args {
 					if i >= len(callee.Params) {
@@ -701,6 +710,9 @@ func (e *parEngine) collect(r *parRegion, fn *ssa.Function, env map[ssa.Value]st
 						// partition, a frame of it …) stay task-dependent in the callee
 						ctask[callee.Params[i]] = true
 						if isIntType(a.Type()) {
+							if !s.injective(a) {
+								cmany[callee.Params[i]] = true
+							}
 							continue
 						}
 					}
@@ -733,6 +745,14 @@ func (e *parEngine) collect(r *parRegion, fn *ssa.Function, env map[ssa.Value]st
 						sharedArg = true
 					} else if s.depends(bv) {
 						ctask[callee.FreeVars[i]] = true
+						if al, ok := bv.(*ssa.Alloc); ok && al.Parent() == fn {
+							// the captured per-task cell holds a many-to-one image of the task index
+							if vals, _ := core.StoresTo(al); len(vals) > 0 && isIntType(vals[0].Type()) && s.mergeForms(vals, 0).kind == injMany {
+								cmany[callee.FreeVars[i]] = true
+							}
+						} else if s.many[bv] {
+							cmany[callee.FreeVars[i]] = true
+						}
 					}
 				}
 				if !sharedArg {
@@ -742,7 +762,7 @@ func (e *parEngine) collect(r *parRegion, fn *ssa.Function, env map[ssa.Value]st
 				if _, isDefer := in.(*ssa.Defer); isDefer {
 					h = held
 				}
-				e.collect(r, callee, cenv, ctask, h, depth+1, stack)
+				e.collect(r, callee, cenv, ctask, cmany, h, depth+1, stack)
 			}
 		}
 	}
@@ -798,8 +818,9 @@ func overlap(a, b string, sameTaskSpace bool) bool {
 		}
 		xi, yi := strings.HasPrefix(x, "["), strings.HasPrefix(y, "[")
 		if xi && yi {
-			// [#] vs [*], [*] vs [3] may coincide; two different constants cannot
-			if x != "[#]" && x != "[*]" && y != "[#]" && y != "[*]" {
+			// [#] vs [*], [*] vs [3] may coincide; two different constants cannot.
+			// [~] (derived from the task index by a many-to-one operation) may coincide with anything.
+			if x != "[#]" && x != "[*]" && x != "[~]" && y != "[#]" && y != "[*]" && y != "[~]" {
 				return false
 			}
 			continue
